@@ -388,7 +388,9 @@ def store_menu(idx, v):
             add("Register/%s-no-len" % t, {"op": "Register", "obj": dict(o, len=None), "attrs": [["Cryptographic Usage Mask", 12]]})
             add("Register/%s-len-0" % t, {"op": "Register", "obj": dict(o, len=0), "attrs": [["Cryptographic Usage Mask", 12]]})
     sk = F.obj_spec("SplitKey")
-    for pr in (None, 0, 1, 2 ** 31, 2 ** 62, 2 ** 63 - 1, 2 ** 63, 2 ** 64, 2 ** 127 - 1, -1):
+    # around every byte boundary of the value (bit lengths 7, 8, 9, 15, 16, 17, ... 56, 57)
+    for pr in (None, 0, 1, 2 ** 31, 2 ** 62, 2 ** 63 - 1, 2 ** 63, 2 ** 64, 2 ** 127 - 1, -1,
+               127, 251, 257, 32749, 65521, 65537, 2 ** 24 - 3, 2 ** 32 - 5, 2 ** 32 + 15, 2 ** 56 - 5, 2 ** 56 + 81):
         add("Register/SplitKey-prime-%s" % pr, {"op": "Register", "obj": dict(sk, prime=pr, method="POLYNOMIAL_SHARING_PRIME_FIELD"), "attrs": [["Cryptographic Usage Mask", 12]]})
     for me in ("XOR", "POLYNOMIAL_SHARING_GF_2_16", "POLYNOMIAL_SHARING_PRIME_FIELD", "POLYNOMIAL_SHARING_GF_2_8"):
         add("Register/SplitKey-method-" + me, {"op": "Register", "obj": dict(sk, method=me), "attrs": [["Cryptographic Usage Mask", 12]]})
